@@ -160,6 +160,28 @@ class C19(PropBase):
             dist["T"] += 1
             dist["with_ctx"] += ctx is not None
             dist["maps"] += kind
+        # seams and thresholds: every constant of the code under test at N-1, N, N+1
+        #   LOW_ADDRESS_CUTOFF = 8192 (was_low, nearby-register gating), NEARBY_REGISTER_DISTANCE = 4096,
+        #   bit 47/48 (canonical range), NEARBY_REGISTER table length 4, region ends at the address-space top
+        for cut in (8191, 8192, 8193):
+            for bit in (0, 1, 12, 13, 14, 47, 48, 63):
+                for dd in (4095, 4096, 4097):
+                    for k in (0, 1, 3, 4, 5):
+                        cand = cut
+                        a = cand ^ (1 << bit)
+                        ctx = [(cand + dd) & U64 if i < k else 0 for i in range(17)]
+                        regs = [(cand & ~0xfff, 0x2000, 4)]
+                        cases.append("T %d -1 2 A %s %s 0" % (a, " ".join(map(str, ctx)), self.fmt_regs(0, regs)))
+                        dist["T"] += 1
+        for orig in (8191, 8192, 8193, 1 << 13, 1 << 14, 1 << 47, 1 << 48):   # null candidate, was_low boundary
+            if orig & (orig - 1) == 0:
+                for br in (0, 1, 2):
+                    cases.append("T %d -1 %d - 0 0  0" % (orig, br))
+                    dist["T"] += 1
+        for top in (U64, U64 - 1, U64 - 0xfff):                                 # maps region ending at 2^64-1
+            for bit in (0, 12, 63):
+                cases.append("T %d -1 2 - %s 0" % (top ^ (1 << bit), self.fmt_regs(1, [(top & ~0xfff, U64, 7)])))
+                dist["T"] += 1
         for _ in range(np_):
             cpu = rng.choice([0, 1, 1, 1, 2])
             os_ = rng.below(2)
